@@ -548,11 +548,22 @@ package client
 //@ spec func invAt(a string) bool
 //@ axiom invAt_true: forall a string :: invAt(a)
 //@ axiom reachP_inv: forall nc *nats.Conn, pts []string, a string, p string :: triggers(reachP(nc, pts, a, p), invAt(a)) ==> (reachP(nc, pts, a, p) ==> p == a || (exists t int, i int :: 0 <= t && t < len(pts) && 0 <= i && i < kidsN(nc, a, pts[t]) && reachP(nc, pts, kid(nc, a, pts[t], i).ID, p)))
+// reachK(nc, a, p): p is a or a descendant of a through the children the store behind nc lists (any type): least fixed
+// point over kid(nc, ., "", .), introduction rules and inversion are axioms. nodeSentTo(nc, id): a SendNode for node id
+// went out on nc (ghost, monotone).
+//@ model func reachK(nc *nats.Conn, a string, p string) bool
+//@ model func nodeSentTo(nc *nats.Conn, id string) bool
+//@ axiom reachK_refl: forall nc *nats.Conn, a string :: reachK(nc, a, a)
+//@ axiom reachK_step: forall nc *nats.Conn, a string, i int, p string :: triggers(reachK(nc, kid(nc, a, "", i).ID, p)) ==> (0 <= i && i < kidsN(nc, a, "") && reachK(nc, kid(nc, a, "", i).ID, p) ==> reachK(nc, a, p))
+//@ axiom reachK_inv: forall nc *nats.Conn, a string, p string :: triggers(reachK(nc, a, p), invAt(a)) ==> (reachK(nc, a, p) ==> p == a || (exists i int :: 0 <= i && i < kidsN(nc, a, "") && reachK(nc, kid(nc, a, "", i).ID, p)))
+//@ spec func sentKept() bool = forall c *nats.Conn, k string :: old(nodeSentTo(c, k)) ==> nodeSentTo(c, k)
+//@ spec func reachKept(nc *nats.Conn) bool = forall p string, a string :: reachK(nc, p, a) == old(reachK(nc, p, a))
 //@ extern client.GetNodes(nc, parent, id, typ, includeDel)
 //@   fresh res0
 //@   modifies state(nc)
 //@   ensures busOps(nc) == old(busOps(nc)) + 1 && logKept(nc) && sentN(nc) == old(sentN(nc)) && treeKept(nc)
 //@   ensures len(res0) <= 140737488355328 && kidsKept(nc)
+//@   ensures [C02, only] sentKept() && reachKept(nc) && (forall c *nats.Conn :: c != nc ==> kidsKept(c) && reachKept(c))
 //@   ensures res1 == nil && id == "all" && !includeDel ==> len(res0) == kidsN(nc, parent, typ) && (forall k int :: 0 <= k && k < len(res0) ==> res0[k] == kid(nc, parent, typ, k))
 //@   ensures res1 == nil && id == "all" && !includeDel ==> (forall k int :: 0 <= k && k < len(res0) ==> isChild(nc, parent, res0[k].ID))
 //@   ensures res1 == nil && parent == "all" ==> (forall k int :: 0 <= k && k < len(res0) ==> res0[k].ID == id && (!includeDel ==> isChild(nc, res0[k].Parent, id)))
@@ -885,10 +896,45 @@ package client
 //@ extern data.(NodeEdge).IsTombstone(n)
 //@ extern errors.New(text)
 //@   ensures result != nil
-//@ extern client.(*SyncClient).sendNodesRemote(up, node)
+// sendNodesRemote / sendNodesLocal: the transfer of a subtree that exists on one side only
+//@ func (*SyncClient).sendNodesRemote
+//@   props C02
+//@   local up *client.SyncClient#1
+//@   local node data.NodeEdge#1
+//@   local err error#1
+//@   local childNodes []data.NodeEdge#1
+//@   option partial
+//@   requires up != nil && up.nc != up.ncRemote
 //@   modifies state(up.nc)
-//@ extern client.(*SyncClient).sendNodesLocal(up, node)
+//@   ensures kidsKept(up.nc) && sentKept() && reachKept(up.nc)
+//@   ensures [C02] the-node-and-every-descendant-is-sent-up: err == nil ==> invAt(node.ID) && (forall d string :: reachK(up.nc, node.ID, d) ==> nodeSentTo(up.ncRemote, d))
+//@   loop 1:
+//@     invariant -1 <= rangeindex && rangeindex < len(childNodes) || rangeindex == -1
+//@     invariant kidsKept(up.nc) && sentKept() && reachKept(up.nc)
+//@     invariant nodeSentTo(up.ncRemote, node.ID)
+//@     invariant len(childNodes) == kidsN(up.nc, node.ID, "") && (forall k int :: 0 <= k && k < len(childNodes) ==> childNodes[k] == kid(up.nc, node.ID, "", k))
+//@     invariant [C02] forall i int, d string :: 0 <= i && i <= rangeindex && reachK(up.nc, childNodes[i].ID, d) ==> nodeSentTo(up.ncRemote, d)
+//@     modifies state(up.nc)
+//@     decreases len(childNodes) - rangeindex
+//@ func (*SyncClient).sendNodesLocal
+//@   props C02
+//@   local up *client.SyncClient#1
+//@   local node data.NodeEdge#1
+//@   local err error#1
+//@   local childNodes []data.NodeEdge#1
+//@   option partial
+//@   requires up != nil && up.ncLocal != up.ncRemote
 //@   modifies state(up.nc)
+//@   ensures kidsKept(up.ncRemote) && sentKept() && reachKept(up.ncRemote)
+//@   ensures [C02] the-node-and-every-descendant-the-upstream-lists-is-sent-down: err == nil ==> invAt(node.ID) && (forall d string :: reachK(up.ncRemote, node.ID, d) ==> nodeSentTo(up.ncLocal, d))
+//@   loop 1:
+//@     invariant -1 <= rangeindex && rangeindex < len(childNodes) || rangeindex == -1
+//@     invariant kidsKept(up.ncRemote) && sentKept() && reachKept(up.ncRemote)
+//@     invariant nodeSentTo(up.ncLocal, node.ID)
+//@     invariant len(childNodes) == kidsN(up.ncRemote, node.ID, "") && (forall k int :: 0 <= k && k < len(childNodes) ==> childNodes[k] == kid(up.ncRemote, node.ID, "", k))
+//@     invariant [C02] forall i int, d string :: 0 <= i && i <= rangeindex && reachK(up.ncRemote, childNodes[i].ID, d) ==> nodeSentTo(up.ncLocal, d)
+//@     modifies state(up.nc)
+//@     decreases len(childNodes) - rangeindex
 //@ extern client.(*SyncClient).subscribeRemoteNode(up, parent, id)
 //@   modifies state(up.nc)
 
@@ -908,8 +954,8 @@ package client
 //@   local child data.NodeEdge#4
 //@   local upChild data.NodeEdge#5
 //@   option partial mathint=SyncCount
-//@   requires up != nil
-//@   modifies up, &up.rootRemote, &up.subRemoteUp, &up.config.SyncCount, state(up.nc), state(client.verifGhost), state(client.verifGhost2)
+//@   requires up != nil && up.nc != up.ncRemote && up.ncLocal != up.ncRemote
+//@   modifies &up.rootRemote, &up.subRemoteUp, &up.config.SyncCount, state(up.nc), state(client.verifGhost), state(client.verifGhost2)
 //@   havoc state(client.verifGhost) at "GetNodes(up.nc, parent, id, \"\", true)"
 //@   assume sync-ghost-reset: (forall k int :: !upSent(verifG, k) && !downSent(verifG, k)) at "GetNodes(up.nc, parent, id, \"\", true)"
 //@   havoc state(client.verifGhost) at "SendNodePoint(up.ncRemote, nodeUp.ID, p, true)"
@@ -1025,7 +1071,7 @@ package client
 //@     invariant -1 <= rangeindex && rangeindex < len(children) || rangeindex == -1
 //@     invariant upChildProcessed != nil && allocd(upChildProcessed)
 //@     invariant [C02] forall a int, j int :: 0 <= a && a <= rangeindex && 0 <= j && j < len(upChildren) && children[a].ID == upChildren[j].ID ==> has(upChildProcessed, j)
-//@     modifies upChildProcessed, state(up.nc), state(client.verifGhost), state(client.verifGhost2), up, &up.rootRemote, &up.subRemoteUp, &up.config.SyncCount
+//@     modifies upChildProcessed, state(up.nc), state(client.verifGhost), state(client.verifGhost2), &up.rootRemote, &up.subRemoteUp, &up.config.SyncCount
 //@     decreases len(children) - rangeindex
 //@   loop 11:
 //@     invariant -1 <= rangeindex && rangeindex < len(upChildren) || rangeindex == -1
@@ -1033,7 +1079,7 @@ package client
 //@     invariant 0 <= rangeindex10 && rangeindex10 < len(children) && child == children[rangeindex10]
 //@     invariant [C02] !found ==> (forall j int :: 0 <= j && j <= rangeindex ==> child.ID != upChildren[j].ID)
 //@     invariant [C02] forall a int, j int :: 0 <= a && a <= rangeindex10 && 0 <= j && j < len(upChildren) && (a < rangeindex10 || j <= rangeindex) && children[a].ID == upChildren[j].ID ==> has(upChildProcessed, j)
-//@     modifies upChildProcessed, state(up.nc), state(client.verifGhost), state(client.verifGhost2), up, &up.rootRemote, &up.subRemoteUp, &up.config.SyncCount
+//@     modifies upChildProcessed, state(up.nc), state(client.verifGhost), state(client.verifGhost2), &up.rootRemote, &up.subRemoteUp, &up.config.SyncCount
 //@     decreases len(upChildren) - rangeindex
 //@   loop 12:
 //@     invariant -1 <= rangeindex && rangeindex < len(upChildren) || rangeindex == -1
@@ -1174,6 +1220,7 @@ package client
 //@ extern client.SendNode(nc, node, origin)
 //@   modifies state(nc)
 //@   ensures busOps(nc) == old(busOps(nc)) + 1
+//@   ensures [C02, only] sentKept() && (res0 == nil ==> nodeSentTo(nc, node.ID)) && (forall c *nats.Conn :: c != nc ==> kidsKept(c) && reachKept(c))
 //@ extern github.com/goccy/go-yaml.Unmarshal(data, v)
 //@   modifies pointee(v), allof(data.NodeEdgeChildren), allof(data.Point)
 //@ func ImportNodes$1
